@@ -375,19 +375,29 @@ impl ClusterHandler for GenCommHandler<'_> {
             let notify_change = |endpt_id, clust_id| ctx.notify_cluster_changed(endpt_id, clust_id);
 
             CommissioningErrorEnum::map(ctx.exchange().with_state(|state| {
-                let sess = ctx.exchange().id().session(&mut state.sessions);
-                let pase_sess_id =
-                    matches!(sess.get_session_mode(), SessionMode::Pase { .. }).then(|| sess.id());
+                // The session this command arrived over must survive (expired) until the
+                // response is out - be it PASE, or CASE on the fabric being rolled back
+                let sess_id = ctx.exchange().id().session(&mut state.sessions).id();
 
                 removed_fabric = state.failsafe.expire(
                     &mut state.fabrics,
                     &mut state.sessions,
-                    pase_sess_id,
+                    Some(sess_id),
                     ctx.networks(),
                     ctx.kv(),
                     notify_mdns,
                     notify_change,
                 )?;
+
+                // Nothing bound to a rolled-back fabric may outlive it
+                #[cfg(feature = "case-resumption")]
+                if let Some(fab_idx) = removed_fabric {
+                    state.resumption.remove_for_fabric(fab_idx);
+                    ctx.exchange()
+                        .matter()
+                        .transport()
+                        .notify_resumption_dirty();
+                }
 
                 Ok(())
             }))?
